@@ -1,0 +1,672 @@
+//go:build verif
+
+package pubsub
+
+// Read-only exports for the verification harness (see /verif/DESIGN.md §2.3).
+// Nothing in this file changes library behaviour; it only copies internal
+// state out of the event loop or gives names to unexported units so that an
+// external test module can drive them.
+
+import (
+	"encoding/hex"
+	"log/slog"
+	"sort"
+	"time"
+
+	pb "github.com/libp2p/go-libp2p-pubsub/pb"
+	"github.com/libp2p/go-libp2p/core/peer"
+)
+
+// ---------------------------------------------------------------------------
+// unit exports
+
+type VerifRPCQueue = rpcQueue
+
+func VerifNewRPCQueue(maxSize int) *VerifRPCQueue { return newRpcQueue(maxSize) }
+
+func (q *rpcQueue) VerifLen() (normal, priority int, closed bool) {
+	q.queueMu.Lock()
+	defer q.queueMu.Unlock()
+	return len(q.queue.normal), len(q.queue.priority), q.closed
+}
+
+// VerifSplit collects the fragments produced by RPC.split.
+func VerifSplit(rpc *RPC, limit int) []RPC {
+	var out []RPC
+	for r := range rpc.split(limit) {
+		out = append(out, r)
+	}
+	return out
+}
+
+func VerifNewRPC(r pb.RPC, from peer.ID) *RPC { return &RPC{RPC: r, from: from} }
+
+type VerifPeerScore = peerScore
+
+func VerifNewPeerScore(params *PeerScoreParams) *VerifPeerScore {
+	return newPeerScore(params, slog.New(slog.DiscardHandler))
+}
+
+func (ps *peerScore) VerifRefreshScores() { ps.refreshScores() }
+func (ps *peerScore) VerifRefreshIPs()    { ps.refreshIPs() }
+func (ps *peerScore) VerifGC()            { ps.gcDeliveryRecords() }
+
+// VerifSetPeerIPs assigns IPs to a peer the way refreshIPs would if the host
+// reported them (unit tests have no host).
+func (ps *peerScore) VerifSetPeerIPs(p peer.ID, ips []string) {
+	ps.Lock()
+	defer ps.Unlock()
+	pstats, ok := ps.peerStats[p]
+	if !ok {
+		return
+	}
+	ps.setIPs(p, ips, pstats.ips)
+	pstats.ips = ips
+}
+
+func VerifValidatePeerScoreParams(p *PeerScoreParams) error   { return p.validate() }
+func VerifValidateTopicScoreParams(p *TopicScoreParams) error { return p.validate() }
+func VerifValidateThresholds(p *PeerScoreThresholds) error    { return p.validate() }
+func VerifValidateGossipSubParams(p *GossipSubParams) error   { return p.validate() }
+func VerifValidatePeerGaterParams(p *PeerGaterParams) error   { return p.validate() }
+
+func VerifVerifyMessageSignature(m *pb.Message) error { return verifyMessageSignature(m) }
+
+func VerifChecksumKey(mid string) string {
+	cs := computeChecksum(mid)
+	return hex.EncodeToString(cs.payload[:]) + ":" + hex.EncodeToString([]byte{cs.length})
+}
+
+// VerifDeadPeerBackoff exposes the dead-peer reconnect backoff unit.
+type VerifBackoff = backoff
+
+func (b *backoff) VerifUpdateAndGet(id peer.ID) (time.Duration, error) { return b.updateAndGet(id) }
+func (b *backoff) VerifCleanup()                                        { b.cleanup() }
+func (b *backoff) VerifKeys() []peer.ID {
+	b.mu.Lock()
+	defer b.mu.Unlock()
+	return sortedPeerKeys(b.info)
+}
+
+// ---------------------------------------------------------------------------
+// event-loop access
+
+// VerifEval runs f inside the event loop and waits for it.
+func (p *PubSub) VerifEval(f func()) error { return p.syncEval(f) }
+
+func (p *PubSub) VerifRouter() PubSubRouter { return p.rt }
+
+func (p *PubSub) VerifMessageID(m *pb.Message) string { return p.idGen.RawID(m) }
+
+func (p *PubSub) VerifSeen(id string) bool { return p.seenMessages.Has(id) }
+
+// ---------------------------------------------------------------------------
+// snapshot
+
+type VerifQueueState struct {
+	Normal, Priority int
+	Closed           bool
+}
+
+type VerifTopicFlags struct {
+	FanoutOnly, RequestPartial, SupportsPartial bool
+	EvtHandlers                                 int
+}
+
+type VerifPeerTopicState struct {
+	RequestsPartial, SupportsPartial bool
+}
+
+type VerifCtl struct {
+	Graft []string
+	Prune []string
+}
+
+type VerifCacheEntry struct {
+	Mid, Topic string
+}
+
+type VerifTopicStats struct {
+	InMesh                      bool
+	GraftTime                   int64
+	MeshTime                    int64
+	FirstMessageDeliveries      float64
+	MeshMessageDeliveries       float64
+	MeshMessageDeliveriesActive bool
+	MeshFailurePenalty          float64
+	InvalidMessageDeliveries    float64
+}
+
+type VerifPeerStats struct {
+	Connected        bool
+	Expire           int64
+	Topics           map[string]VerifTopicStats
+	IPs              []string
+	BehaviourPenalty float64
+	Score            float64
+}
+
+type VerifDeliveryRecord struct {
+	Status    int
+	FirstSeen int64
+	Validated int64
+	Peers     []peer.ID
+}
+
+type VerifScoreState struct {
+	Peers   map[peer.ID]VerifPeerStats
+	PeerIPs map[string][]peer.ID
+	Records map[string]VerifDeliveryRecord
+}
+
+type VerifGaterStats struct {
+	Connected                          int
+	Expire                             int64
+	Deliver, Duplicate, Ignore, Reject float64
+}
+
+type VerifGaterState struct {
+	Validate, Throttle float64
+	LastThrottle       int64
+	Peers              map[peer.ID]VerifGaterStats
+	IPs                []string
+}
+
+type VerifGossipState struct {
+	Peers          map[peer.ID]string
+	Direct         []peer.ID
+	Mesh           map[string][]peer.ID
+	Fanout         map[string][]peer.ID
+	Lastpub        map[string]int64
+	Gossip         map[peer.ID]map[string][]string
+	Control        map[peer.ID]VerifCtl
+	Peerhave       map[peer.ID]int
+	Iasked         map[peer.ID]int
+	Peerdontwant   map[peer.ID]int
+	Unwanted       map[peer.ID]map[string]int
+	Outbound       map[peer.ID]bool
+	Backoff        map[string]map[peer.ID]int64
+	HeartbeatTicks uint64
+	History        [][]VerifCacheEntry
+	CacheMsgs      []string
+	PeerTx         map[string]map[peer.ID]int
+	PeerExtensions []peer.ID
+	SentExtensions []peer.ID
+	PartialPeers   []peer.ID
+	Scores         map[peer.ID]float64
+	Score          *VerifScoreState
+	Gater          *VerifGaterState
+	Promises       map[string]map[peer.ID]int64
+	PeerPromises   map[peer.ID][]string
+	NearFirst      map[string][]peer.ID
+	Params         GossipSubParams
+}
+
+type VerifState struct {
+	Now         int64
+	Router      string
+	Peers       map[peer.ID]VerifQueueState
+	Topics      map[string]map[peer.ID]VerifPeerTopicState
+	MySubs      map[string]int
+	MyRelays    map[string]int
+	MyTopics    map[string]VerifTopicFlags
+	Inbound     []peer.ID
+	Blacklisted []peer.ID
+	DeadBackoff []peer.ID
+	RandomPeers map[peer.ID]string
+	GS          *VerifGossipState
+}
+
+// VerifSnapshot returns a deep copy of the node's internal state taken inside
+// the event loop. It returns nil once the instance has shut down.
+func (p *PubSub) VerifSnapshot(extraPeers ...peer.ID) *VerifState {
+	var st *VerifState
+	if err := p.syncEval(func() { st = p.verifSnapshotLocked(extraPeers) }); err != nil {
+		return nil
+	}
+	return st
+}
+
+// VerifSnapshotInLoop is VerifSnapshot for callers that already run on the
+// event-loop goroutine (RawTracer callbacks).
+func (p *PubSub) VerifSnapshotInLoop(extraPeers ...peer.ID) *VerifState {
+	return p.verifSnapshotLocked(extraPeers)
+}
+
+func (p *PubSub) verifSnapshotLocked(extraPeers []peer.ID) *VerifState {
+	st := &VerifState{
+		Now:      time.Now().UnixNano(),
+		Peers:    make(map[peer.ID]VerifQueueState),
+		Topics:   make(map[string]map[peer.ID]VerifPeerTopicState),
+		MySubs:   make(map[string]int),
+		MyRelays: make(map[string]int),
+		MyTopics: make(map[string]VerifTopicFlags),
+	}
+	known := make(map[peer.ID]struct{})
+	for _, x := range extraPeers {
+		known[x] = struct{}{}
+	}
+	for pid, q := range p.peers {
+		n, pr, c := q.VerifLen()
+		st.Peers[pid] = VerifQueueState{Normal: n, Priority: pr, Closed: c}
+		known[pid] = struct{}{}
+	}
+	for t, tmap := range p.topics {
+		m := make(map[peer.ID]VerifPeerTopicState, len(tmap))
+		for pid, s := range tmap {
+			m[pid] = VerifPeerTopicState{RequestsPartial: s.requestsPartial, SupportsPartial: s.supportsPartial}
+			known[pid] = struct{}{}
+		}
+		st.Topics[t] = m
+	}
+	for t, subs := range p.mySubs {
+		st.MySubs[t] = len(subs)
+	}
+	for t, n := range p.myRelays {
+		st.MyRelays[t] = n
+	}
+	for t, tp := range p.myTopics {
+		tp.evtHandlerMux.RLock()
+		n := len(tp.evtHandlers)
+		tp.evtHandlerMux.RUnlock()
+		st.MyTopics[t] = VerifTopicFlags{FanoutOnly: tp.fanoutOnly, RequestPartial: tp.requestPartialMessages, SupportsPartial: tp.supportsPartialMessages, EvtHandlers: n}
+	}
+	p.inboundStreamsMx.Lock()
+	st.Inbound = sortedPeerKeys(p.inboundStreams)
+	for pid := range p.inboundStreams {
+		known[pid] = struct{}{}
+	}
+	p.inboundStreamsMx.Unlock()
+	st.DeadBackoff = p.deadPeerBackoff.VerifKeys()
+
+	switch rt := p.rt.(type) {
+	case *FloodSubRouter:
+		st.Router = "floodsub"
+	case *RandomSubRouter:
+		st.Router = "randomsub"
+		st.RandomPeers = make(map[peer.ID]string, len(rt.peers))
+		for pid, pr := range rt.peers {
+			st.RandomPeers[pid] = string(pr)
+			known[pid] = struct{}{}
+		}
+	case *GossipSubRouter:
+		st.Router = "gossipsub"
+		st.GS = rt.verifSnapshot(known)
+	default:
+		st.Router = "other"
+	}
+	for pid := range known {
+		if p.blacklist.Contains(pid) {
+			st.Blacklisted = append(st.Blacklisted, pid)
+		}
+	}
+	sortPeers(st.Blacklisted)
+	return st
+}
+
+func (gs *GossipSubRouter) verifSnapshot(known map[peer.ID]struct{}) *VerifGossipState {
+	g := &VerifGossipState{
+		Peers:          make(map[peer.ID]string, len(gs.peers)),
+		Direct:         sortedPeerKeys(gs.direct),
+		Mesh:           make(map[string][]peer.ID, len(gs.mesh)),
+		Fanout:         make(map[string][]peer.ID, len(gs.fanout)),
+		Lastpub:        make(map[string]int64, len(gs.lastpub)),
+		Gossip:         make(map[peer.ID]map[string][]string),
+		Control:        make(map[peer.ID]VerifCtl),
+		Peerhave:       make(map[peer.ID]int),
+		Iasked:         make(map[peer.ID]int),
+		Peerdontwant:   make(map[peer.ID]int),
+		Unwanted:       make(map[peer.ID]map[string]int),
+		Outbound:       make(map[peer.ID]bool),
+		Backoff:        make(map[string]map[peer.ID]int64),
+		HeartbeatTicks: gs.heartbeatTicks,
+		PeerTx:         make(map[string]map[peer.ID]int),
+		Scores:         make(map[peer.ID]float64),
+		Params:         gs.params,
+	}
+	for pid, pr := range gs.peers {
+		g.Peers[pid] = string(pr)
+		known[pid] = struct{}{}
+	}
+	for t, m := range gs.mesh {
+		g.Mesh[t] = sortedPeerKeys(m)
+		for pid := range m {
+			known[pid] = struct{}{}
+		}
+	}
+	for t, m := range gs.fanout {
+		g.Fanout[t] = sortedPeerKeys(m)
+		for pid := range m {
+			known[pid] = struct{}{}
+		}
+	}
+	for t, v := range gs.lastpub {
+		g.Lastpub[t] = v
+	}
+	for pid, ihs := range gs.gossip {
+		m := make(map[string][]string)
+		for _, ih := range ihs {
+			m[ih.GetTopicID()] = append(m[ih.GetTopicID()], ih.GetMessageIDs()...)
+		}
+		g.Gossip[pid] = m
+		known[pid] = struct{}{}
+	}
+	for pid, ctl := range gs.control {
+		var c VerifCtl
+		for _, gr := range ctl.GetGraft() {
+			c.Graft = append(c.Graft, gr.GetTopicID())
+		}
+		for _, pr := range ctl.GetPrune() {
+			c.Prune = append(c.Prune, pr.GetTopicID())
+		}
+		g.Control[pid] = c
+		known[pid] = struct{}{}
+	}
+	for pid, n := range gs.peerhave {
+		g.Peerhave[pid] = n
+		known[pid] = struct{}{}
+	}
+	for pid, n := range gs.iasked {
+		g.Iasked[pid] = n
+		known[pid] = struct{}{}
+	}
+	for pid, n := range gs.peerdontwant {
+		g.Peerdontwant[pid] = n
+		known[pid] = struct{}{}
+	}
+	for pid, m := range gs.unwanted {
+		mm := make(map[string]int, len(m))
+		for cs, ttl := range m {
+			mm[hex.EncodeToString(cs.payload[:])+":"+hex.EncodeToString([]byte{cs.length})] = ttl
+		}
+		g.Unwanted[pid] = mm
+		known[pid] = struct{}{}
+	}
+	for pid, b := range gs.outbound {
+		g.Outbound[pid] = b
+		known[pid] = struct{}{}
+	}
+	for t, m := range gs.backoff {
+		mm := make(map[peer.ID]int64, len(m))
+		for pid, tm := range m {
+			mm[pid] = tm.UnixNano()
+			known[pid] = struct{}{}
+		}
+		g.Backoff[t] = mm
+	}
+	for _, slot := range gs.mcache.history {
+		var s []VerifCacheEntry
+		for _, e := range slot {
+			s = append(s, VerifCacheEntry{Mid: e.mid, Topic: e.topic})
+		}
+		g.History = append(g.History, s)
+	}
+	for mid := range gs.mcache.msgs {
+		g.CacheMsgs = append(g.CacheMsgs, mid)
+	}
+	sort.Strings(g.CacheMsgs)
+	for mid, m := range gs.mcache.peertx {
+		mm := make(map[peer.ID]int, len(m))
+		for pid, n := range m {
+			mm[pid] = n
+			known[pid] = struct{}{}
+		}
+		g.PeerTx[mid] = mm
+	}
+	g.PeerExtensions = sortedPeerKeys(gs.extensions.peerExtensions)
+	g.SentExtensions = sortedPeerKeys(gs.extensions.sentExtensions)
+	for _, pid := range g.PeerExtensions {
+		known[pid] = struct{}{}
+	}
+	for _, pid := range g.SentExtensions {
+		known[pid] = struct{}{}
+	}
+	if pk, ok := gs.extensions.partialMessagesExtension.(interface{ VerifPeerKeys() []peer.ID }); ok && gs.extensions.partialMessagesExtension != nil {
+		g.PartialPeers = pk.VerifPeerKeys()
+		sortPeers(g.PartialPeers)
+		for _, pid := range g.PartialPeers {
+			known[pid] = struct{}{}
+		}
+	}
+	if gs.score != nil {
+		g.Score = gs.score.VerifSnapshot()
+		for pid := range g.Score.Peers {
+			known[pid] = struct{}{}
+		}
+	}
+	if gs.gate != nil {
+		g.Gater = gs.gate.verifSnapshot()
+		for pid := range g.Gater.Peers {
+			known[pid] = struct{}{}
+		}
+	}
+	if gs.gossipTracer != nil {
+		gt := gs.gossipTracer
+		gt.Lock()
+		g.Promises = make(map[string]map[peer.ID]int64, len(gt.promises))
+		for mid, m := range gt.promises {
+			mm := make(map[peer.ID]int64, len(m))
+			for pid, tm := range m {
+				mm[pid] = tm.UnixNano()
+				known[pid] = struct{}{}
+			}
+			g.Promises[mid] = mm
+		}
+		g.PeerPromises = make(map[peer.ID][]string, len(gt.peerPromises))
+		for pid, m := range gt.peerPromises {
+			var l []string
+			for mid := range m {
+				l = append(l, mid)
+			}
+			sort.Strings(l)
+			g.PeerPromises[pid] = l
+			known[pid] = struct{}{}
+		}
+		gt.Unlock()
+	}
+	if gs.tagTracer != nil {
+		tt := gs.tagTracer
+		tt.Lock()
+		g.NearFirst = make(map[string][]peer.ID, len(tt.nearFirst))
+		for mid, m := range tt.nearFirst {
+			g.NearFirst[mid] = sortedPeerKeys(m)
+			for pid := range m {
+				known[pid] = struct{}{}
+			}
+		}
+		tt.Unlock()
+	}
+	for pid := range known {
+		g.Scores[pid] = gs.score.Score(pid)
+	}
+	return g
+}
+
+func (ps *peerScore) VerifSnapshot() *VerifScoreState {
+	ps.Lock()
+	defer ps.Unlock()
+	s := &VerifScoreState{
+		Peers:   make(map[peer.ID]VerifPeerStats, len(ps.peerStats)),
+		PeerIPs: make(map[string][]peer.ID, len(ps.peerIPs)),
+		Records: make(map[string]VerifDeliveryRecord, len(ps.deliveries.records)),
+	}
+	for pid, st := range ps.peerStats {
+		v := VerifPeerStats{
+			Connected:        st.connected,
+			Topics:           make(map[string]VerifTopicStats, len(st.topics)),
+			IPs:              append([]string(nil), st.ips...),
+			BehaviourPenalty: st.behaviourPenalty,
+			Score:            ps.score(pid),
+		}
+		if !st.expire.IsZero() {
+			v.Expire = st.expire.UnixNano()
+		}
+		for t, ts := range st.topics {
+			vt := VerifTopicStats{
+				InMesh:                      ts.inMesh,
+				MeshTime:                    int64(ts.meshTime),
+				FirstMessageDeliveries:      ts.firstMessageDeliveries,
+				MeshMessageDeliveries:       ts.meshMessageDeliveries,
+				MeshMessageDeliveriesActive: ts.meshMessageDeliveriesActive,
+				MeshFailurePenalty:          ts.meshFailurePenalty,
+				InvalidMessageDeliveries:    ts.invalidMessageDeliveries,
+			}
+			if !ts.graftTime.IsZero() {
+				vt.GraftTime = ts.graftTime.UnixNano()
+			}
+			v.Topics[t] = vt
+		}
+		s.Peers[pid] = v
+	}
+	for ip, m := range ps.peerIPs {
+		s.PeerIPs[ip] = sortedPeerKeys(m)
+	}
+	for id, r := range ps.deliveries.records {
+		v := VerifDeliveryRecord{Status: r.status, Peers: sortedPeerKeys(r.peers)}
+		if !r.firstSeen.IsZero() {
+			v.FirstSeen = r.firstSeen.UnixNano()
+		}
+		if !r.validated.IsZero() {
+			v.Validated = r.validated.UnixNano()
+		}
+		s.Records[id] = v
+	}
+	return s
+}
+
+func (pg *peerGater) verifSnapshot() *VerifGaterState {
+	pg.Lock()
+	defer pg.Unlock()
+	s := &VerifGaterState{
+		Validate: pg.validate,
+		Throttle: pg.throttle,
+		Peers:    make(map[peer.ID]VerifGaterStats, len(pg.peerStats)),
+	}
+	if !pg.lastThrottle.IsZero() {
+		s.LastThrottle = pg.lastThrottle.UnixNano()
+	}
+	for pid, st := range pg.peerStats {
+		v := VerifGaterStats{Connected: st.connected, Deliver: st.deliver, Duplicate: st.duplicate, Ignore: st.ignore, Reject: st.reject}
+		if !st.expire.IsZero() {
+			v.Expire = st.expire.UnixNano()
+		}
+		s.Peers[pid] = v
+	}
+	for ip := range pg.ipStats {
+		s.IPs = append(s.IPs, ip)
+	}
+	sort.Strings(s.IPs)
+	return s
+}
+
+// VerifPerPeerKeys flattens a snapshot to "which per-peer container mentions
+// which peer" (C13). Containers with a life of their own (peerstore, address
+// book, direct-peer configuration) are deliberately absent.
+func (st *VerifState) VerifPerPeerKeys() map[string][]peer.ID {
+	out := make(map[string][]peer.ID)
+	add := func(name string, pids ...peer.ID) {
+		out[name] = append(out[name], pids...)
+	}
+	for pid := range st.Peers {
+		add("pubsub.peers", pid)
+	}
+	for t, m := range st.Topics {
+		for pid := range m {
+			add("pubsub.topics["+t+"]", pid)
+		}
+	}
+	add("pubsub.inboundStreams", st.Inbound...)
+	add("pubsub.deadPeerBackoff", st.DeadBackoff...)
+	for pid := range st.RandomPeers {
+		add("randomsub.peers", pid)
+	}
+	if g := st.GS; g != nil {
+		for pid := range g.Peers {
+			add("gs.peers", pid)
+		}
+		for t, l := range g.Mesh {
+			add("gs.mesh["+t+"]", l...)
+		}
+		for t, l := range g.Fanout {
+			add("gs.fanout["+t+"]", l...)
+		}
+		for pid := range g.Gossip {
+			add("gs.gossip", pid)
+		}
+		for pid := range g.Control {
+			add("gs.control", pid)
+		}
+		for pid := range g.Peerhave {
+			add("gs.peerhave", pid)
+		}
+		for pid := range g.Iasked {
+			add("gs.iasked", pid)
+		}
+		for pid := range g.Peerdontwant {
+			add("gs.peerdontwant", pid)
+		}
+		for pid := range g.Unwanted {
+			add("gs.unwanted", pid)
+		}
+		for pid := range g.Outbound {
+			add("gs.outbound", pid)
+		}
+		for t, m := range g.Backoff {
+			for pid := range m {
+				add("gs.backoff["+t+"]", pid)
+			}
+		}
+		for _, m := range g.PeerTx {
+			for pid := range m {
+				add("gs.mcache.peertx", pid)
+			}
+		}
+		add("gs.extensions.peerExtensions", g.PeerExtensions...)
+		add("gs.extensions.sentExtensions", g.SentExtensions...)
+		add("gs.partial.peerState", g.PartialPeers...)
+		if g.Score != nil {
+			for pid := range g.Score.Peers {
+				add("score.peerStats", pid)
+			}
+			for _, l := range g.Score.PeerIPs {
+				add("score.peerIPs", l...)
+			}
+			for _, r := range g.Score.Records {
+				add("score.deliveries.peers", r.Peers...)
+			}
+		}
+		if g.Gater != nil {
+			for pid := range g.Gater.Peers {
+				add("gater.peerStats", pid)
+			}
+		}
+		for _, m := range g.Promises {
+			for pid := range m {
+				add("gossipTracer.promises", pid)
+			}
+		}
+		for pid := range g.PeerPromises {
+			add("gossipTracer.peerPromises", pid)
+		}
+		for _, l := range g.NearFirst {
+			add("tagTracer.nearFirst", l...)
+		}
+	}
+	for k := range out {
+		sortPeers(out[k])
+	}
+	return out
+}
+
+func sortedPeerKeys[V any](m map[peer.ID]V) []peer.ID {
+	out := make([]peer.ID, 0, len(m))
+	for k := range m {
+		out = append(out, k)
+	}
+	sortPeers(out)
+	return out
+}
+
+func sortPeers(l []peer.ID) {
+	sort.Slice(l, func(i, j int) bool { return l[i] < l[j] })
+}
